@@ -231,7 +231,7 @@ func c07Day(c *vh.Ctx, run *nRun, i int) {
 
 // deepTillageRuns: whole simulations with a tillage event of 45-60 cm (any depth is in the
 // property's quantifier).
-func deepTillageRuns(c *vh.Ctx, runs int) {
+func deepTillageRuns(c *vh.Ctx, runs int, day func(c *vh.Ctx, run *nRun, i int)) {
 	for k := 0; k < runs; k++ {
 		r := c.Rng.Fork()
 		p := proj.Gen(r, fmt.Sprintf("dt%d", k), proj.Opt{Management: true, MinLayers: 7, NoCrop: true, Years: 1})
@@ -254,7 +254,7 @@ func deepTillageRuns(c *vh.Ctx, runs int) {
 			continue
 		}
 		for i := range run.Days {
-			c07Day(c, run, i)
+			day(c, run, i)
 		}
 	}
 }
@@ -267,7 +267,7 @@ func checkC07(c *vh.Ctx) {
 	denitKernelStage(c, c.N(600, 8000), "C07")
 	wholeRunStage(c, c.N(40, 500), true, c07Day)
 	peatRuns(c, c.N(4, 40), true, c07Day)
-	deepTillageRuns(c, c.N(3, 20))
+	deepTillageRuns(c, c.N(3, 20), c07Day)
 	creditRuns(c, c.N(12, 120))
 	lateMeasureRuns(c, c.N(8, 80), c07Day)
 }
